@@ -434,6 +434,23 @@ async fn ttl_is_extended_to_the_full_ttl_exactly_when_due() {
         let cookie = s.finalize().await.unwrap().unwrap();
         let new_id: SessionId = serde_json::from_value(serde_json::from_str::<serde_json::Value>(cookie.value()).unwrap()["0"].clone()).unwrap();
         let left = store.load(&new_id).await.unwrap().expect("the record is there").ttl;
+        // the record vanishes while the request is running (expiry, an operator): the response must not carry a cookie that
+        // silently points at nothing — either finalize fails, or the next request still observes the state
+        if touch == "read" && expect_full {
+            let store2 = SessionStore::new(InMemorySessionStore::new());
+            let id2 = SessionId::random();
+            let mut st2 = HashMap::new(); st2.insert("user_id".into(), serde_json::json!(42));
+            store2.create(&id2, SessionRecordRef { state: std::borrow::Cow::Owned(st2), ttl: written }).await.unwrap();
+            let mut s2 = Session::new(&store2, &config, Some(IncomingSession::from_parts(id2, Default::default())));
+            assert_eq!(s2.get::<u64>("user_id").await.unwrap(), Some(42));
+            store2.delete(&id2).await.unwrap();
+            if let Ok(Some(c2)) = s2.finalize().await {
+                if !c2.value().is_empty() {
+                    let s3 = Session::new(&store2, &config, Some(incoming(&c2)));
+                    assert_eq!(s3.get::<u64>("user_id").await.unwrap(), Some(42), "trigger={trigger:?} threshold={threshold:?}: the record vanished during the request, finalize reported success, and the next request observes nothing");
+                }
+            }
+        }
         let case = format!("trigger={trigger:?} threshold={threshold:?} remaining={written:?} request={touch}");
         if expect_full {
             assert!(left > full - std::time::Duration::from_secs(60) && left <= full, "{case}: the record must live for a full TTL ({full:?}) from now, the store reports {left:?}");
@@ -651,7 +668,7 @@ mod pipeline {
             }
             // the removal cookie targets the same (name, domain, path); Debug never shows the id in any state
             let mut s2 = Session::new(&store, &config, Some(incoming(&c)));
-            let shows = |s: &Session<'_>| { let d = format!("{s:?}"); d.contains(&id) || d.contains(&id.replace('-', "")) };
+            let shows = |s: &Session<'_>| { let d = format!("{s:?}\n{s:#?}"); d.contains(&id) || d.contains(&id.replace('-', "")) };
             assert!(!shows(&s2)); let _ = s2.get_raw("k").await.unwrap(); assert!(!shows(&s2));
             s2.cycle_id(); assert!(!shows(&s2)); s2.delete(); assert!(!shows(&s2)); s2.invalidate(); assert!(!shows(&s2));
             let r = s2.finalize().await.unwrap().expect("removal cookie");
